@@ -199,3 +199,10 @@ Definition GFilter (text : bytes) (e : lexpr) : Prop :=
   exists ws1 t ws2, text = ws1 ++ t ++ ws2 /\ layout_ws ws1 /\ layout_ws ws2 /\ GLogical false 0 t e.
 
 End Grammar.
+
+(* value expressions (FilterValueAst): a left-hand side that does not iterate, with white space around it *)
+Definition GValue (sch : scheme) (text : bytes) (e : iexpr) : Prop :=
+  exists ws1 name itxt ws2 i t0 idx t,
+    text = ws1 ++ (name ++ itxt) ++ ws2 /\ layout_ws ws1 /\ layout_ws ws2 /\
+    ident_text name /\ scheme_get sch name = Some (IdField i) /\ field_ty sch i = Some t0 /\
+    idx_text t0 itxt idx t /\ map_each_count idx = 0%nat /\ e = IField i idx.
